@@ -24,7 +24,7 @@ class C09(EngineACheck):
     )
     EXPECTED_PROBES = ["jobs_waited_for_limits", "failed_runs", "returned_runs",
                        "second_execution_after_failed_one"]
-    QUICK_SECONDS = 35.0
+    QUICK_SECONDS = 45.0
 
     def run_one(self, ch: Choices) -> RunOutcome:
         out = RunOutcome()
